@@ -374,3 +374,45 @@ func SortedKeys[V any](m map[string]V) []string {
 	sort.Strings(out)
 	return out
 }
+
+// UserDeletePod is `kubectl delete pod`: graceful like any other deletion.
+func (c *Cluster) UserDeletePod(ns, name string) {
+	c.tracef("user deletes pod %s/%s", ns, name)
+	_ = c.gracefulDeletePod(ns, name)
+}
+
+// MutateERS edits a replica set in place (raw write: spec, status and metadata).
+func (c *Cluster) MutateERS(ns, name string, f func(*edsv1.ExtendedDaemonSetReplicaSet)) bool {
+	rs := c.ERS(ns, name)
+	if rs == nil {
+		return false
+	}
+	f(rs)
+	c.rawUpdate(GVKERS, rs)
+	return true
+}
+
+// MutateEDS edits an ExtendedDaemonSet in place (raw write incl. status).
+func (c *Cluster) MutateEDS(ns, name string, f func(*edsv1.ExtendedDaemonSet)) bool {
+	e := c.EDS(ns, name)
+	if e == nil {
+		return false
+	}
+	f(e)
+	c.rawUpdate(GVKEDS, e)
+	return true
+}
+
+// MutateSetting edits a setting in place (raw write).
+func (c *Cluster) MutateSetting(ns, name string, f func(*edsv1.ExtendedDaemonsetSetting)) bool {
+	s := c.Setting(ns, name)
+	if s == nil {
+		return false
+	}
+	f(s)
+	c.rawUpdate(GVKSetting, s)
+	return true
+}
+
+// DeleteERS removes a replica set object (user or GC).
+func (c *Cluster) DeleteERS(ns, name string) { c.rawDelete(GVKERS, ns, name); c.tracef("ers delete %s/%s", ns, name) }
